@@ -1,4 +1,105 @@
-(* C13 -- statements (in progress). *)
-From stdpp Require Import strings gmap sets.
-From CG Require Import Model.Logic Proofs.LogicProofs.
+(* C13 -- generated arithmetic blocks compute the arithmetic they name.  Statements only; proofs in
+   Proofs/LogicProofs.v (helpers, half/full adder, ripple-carry adder), Proofs/LogicMux.v, Proofs/LogicLint.v,
+   Proofs/LogicPop.v.  Widths are unbounded unless a statement says otherwise. *)
+From stdpp Require Import strings gmap sets numbers.
+From CG Require Import Model.Logic Model.Lint Proofs.LogicOracle Proofs.LogicProofs Proofs.LogicLint Proofs.LogicMux Proofs.LogicPop.
 Open Scope string_scope.
+
+(* ---------------------------------------------------------------- helpers of utils.py *)
+(* clog2(n) = ceil(log2 n): the least k with n <= 2^k *)
+Theorem C13_clog2 : ∀ n k, (1 ≤ n)%Z → clog2 n = Ok k →
+  (n ≤ 2 ^ Z.of_nat k)%Z ∧ (k = 0 ∨ (2 ^ (Z.of_nat k - 1) < n)%Z).
+Proof. exact clog2_spec. Qed.
+Print Assumptions C13_clog2.
+(* it returns (no fuel exhaustion, no exception) for every n >= 1 ... *)
+Theorem C13_clog2_total : ∀ n, (1 ≤ n)%Z → clog2 n = Ok (Z.to_nat (Z.log2_up n)).
+Proof. exact clog2_log2_up. Qed.
+Print Assumptions C13_clog2_total.
+(* ... and rejects everything below 1 with ValueError *)
+Theorem C13_clog2_rejects : ∀ n, (n < 1)%Z → clog2 n = Raise ValueError.
+Proof. exact clog2_rejects. Qed.
+Print Assumptions C13_clog2_rejects.
+
+(* bin_to_int(int_to_bin(i, w, lend), lend) = i, both endiannesses; stronger than the property text:
+   zfill never truncates, so no bound on i is needed *)
+Theorem C13_bin_roundtrip : ∀ i w lend, bin_to_int (int_to_bin i w lend) lend = Ok i.
+Proof. exact bin_roundtrip. Qed.
+Print Assumptions C13_bin_roundtrip.
+Theorem C13_int_to_bin_width : ∀ i w lend, 1 ≤ w → (i < 2 ^ N.of_nat w)%N → length (int_to_bin i w lend) = w.
+Proof. exact int_to_bin_length. Qed.
+Print Assumptions C13_int_to_bin_width.
+(* the one input bin_to_int rejects: int("", 2) *)
+Theorem C13_bin_to_int_empty : ∀ lend, bin_to_int [] lend = Raise ValueError.
+Proof. exact bin_to_int_empty. Qed.
+Print Assumptions C13_bin_to_int_empty.
+
+(* ---------------------------------------------------------------- half adder, full adder *)
+Theorem C13_half_adder : ∀ v, consistent (c_g half_adder) v →
+  (v "s" = xorb (v "x") (v "y") ∧ v "c" = v "x" && v "y") ∧ lint_clean half_adder.
+Proof. intros v H. split; [by apply half_adder_correct|exact half_adder_lint_clean]. Qed.
+Print Assumptions C13_half_adder.
+Theorem C13_full_adder : ∀ v, consistent (c_g full_adder) v →
+  (N.b2n (v "s") + 2 * N.b2n (v "cout") = N.b2n (v "x") + N.b2n (v "y") + N.b2n (v "cin"))%N ∧ lint_clean full_adder.
+Proof. intros v H. split; [by apply full_adder_correct|exact full_adder_lint_clean]. Qed.
+Print Assumptions C13_full_adder.
+
+(* ---------------------------------------------------------------- ripple-carry adder, every width, both carry options *)
+Theorem C13_adder : ∀ w ci co v, consistent (c_g (adder w ci co)) v →
+  let total := (bitsN v "a_" w + bitsN v "b_" w + N.b2n (ci && v "cin"))%N in
+  bitsN v "out_" w = (total mod 2 ^ N.of_nat w)%N ∧
+  (co = true → N.b2n (v "cout") = (total / 2 ^ N.of_nat w)%N) ∧
+  lint_clean (adder w ci co).
+Proof.
+  intros w ci co v H total. destruct (adder_correct w ci co v H) as [H1 H2].
+  split; [exact H1|]. split; [exact H2|apply adder_lint_clean].
+Qed.
+Print Assumptions C13_adder.
+
+(* ---------------------------------------------------------------- mux, every width *)
+Theorem C13_mux : ∀ w C v, 1 ≤ w → mux w = Ok C → consistent (c_g C) v →
+  let k := sel_width w in let i := N.to_nat (bitsN v "sel_" k) in
+  v "out" = if (i <? w)%nat then v (bitname "in_" i) else false.
+Proof. exact mux_correct. Qed.
+Print Assumptions C13_mux.
+Theorem C13_mux_interface : ∀ w C, 1 ≤ w → mux w = Ok C →
+  (inputs (c_g C) = list_to_set (names "in_" w ++ names "sel_" (sel_width w))%list ∧ outputs (c_g C) = {["out"]}) ∧ lint_clean C.
+Proof. intros w C Hw HC. split; [by apply mux_io|by eapply mux_lint_clean]. Qed.
+Print Assumptions C13_mux_interface.
+(* width 0: clog2(0) raises *)
+Theorem C13_mux_rejects : mux 0 = Raise ValueError.
+Proof. exact mux_zero. Qed.
+Print Assumptions C13_mux_rejects.
+
+(* ---------------------------------------------------------------- popcount *)
+(* the statement at full strength -- NOT proved for every width; decided per generated width by the oracle *)
+Definition C13_popcount_full : Prop := ∀ w C v, 1 ≤ w → popcount w = Ok C → consistent (c_g C) v →
+  bitsN v "out_" (size (outputs (c_g C))) = onesN v "in_" w ∧ lint_clean C.
+(* proved part: widths 1..4 (exhaustive evaluation of the model's circuit, lifted to all consistent valuations by
+   popcount_ok_sound).  Missing: the induction over the adder queue for arbitrary w.  The building block is
+   covered for every width: C13_adder with carry_out gives the exact sum of two aw-bit numbers. *)
+Theorem C13_popcount_partial : ∀ w C v, 1 ≤ w ≤ 4 → popcount w = Ok C → consistent (c_g C) v →
+  bitsN v "out_" (size (outputs (c_g C))) = onesN v "in_" w ∧ lint_clean C.
+Proof. exact popcount_small. Qed.
+Print Assumptions C13_popcount_partial.
+(* a positive oracle verdict on a returned circuit is the statement for all its consistent valuations *)
+Theorem C13_popcount_oracle_sound : ∀ w c v, popcount_ok w c = true → consistent c v →
+  bitsN v "out_" (size (outputs c)) = onesN v "in_" w.
+Proof. exact popcount_ok_sound. Qed.
+Print Assumptions C13_popcount_oracle_sound.
+Theorem C13_popcount_rejects : popcount 0 = Raise IndexError.
+Proof. reflexivity. Qed.
+Print Assumptions C13_popcount_rejects.
+
+(* ---------------------------------------------------------------- non-vacuity: consistent valuations exist and the numbers come out *)
+Example C13_adder_inhabited :
+  let c := c_g (adder 2 true true) in let v := evalc c (val_of ["a_0"; "b_0"; "b_1"; "cin"]) in
+  consistent c v ∧ bitsN v "a_" 2 = 1%N ∧ bitsN v "b_" 2 = 3%N ∧ bitsN v "out_" 2 = 1%N ∧ v "cout" = true.
+Proof. split; [apply consistentb_spec; vm_compute; reflexivity|vm_compute; auto]. Qed.
+Example C13_mux_inhabited : ∃ C, mux 3 = Ok C ∧
+  let v := evalc (c_g C) (val_of ["sel_1"; "in_2"]) in consistent (c_g C) v ∧ N.to_nat (bitsN v "sel_" 2) = 2 ∧ v "out" = true.
+Proof. eexists. split; [reflexivity|]. split; [apply consistentb_spec; vm_compute; reflexivity|vm_compute; auto]. Qed.
+Example C13_popcount_inhabited : ∃ C, popcount 3 = Ok C ∧
+  let v := evalc (c_g C) (val_of ["in_0"; "in_2"]) in consistent (c_g C) v ∧ onesN v "in_" 3 = 2%N ∧ bitsN v "out_" 3 = 2%N.
+Proof. eexists. split; [reflexivity|]. split; [apply consistentb_spec; vm_compute; reflexivity|vm_compute; auto]. Qed.
+Example C13_helpers : clog2 17 = Ok 5 ∧ int_to_bin 6 4 true = [false; true; true; false] ∧ int_to_bin 5 2 false = [true; false; true].
+Proof. vm_compute. auto. Qed.
